@@ -74,7 +74,7 @@ func VerifyUnit(prog *Program, specs *Specs, fn *ssa.Function, ct *Contract, opt
 	}
 	x.assumeFalseAtExit = opts.ProbeExit
 	x.known = opts.Known
-	st := &State{x: x, regs: map[ssa.Value]Val{}, cells: map[*Cell]Val{}, heap: map[string]Term{}, defers: map[int][]deferred{}, fresh: map[string]bool{}, loopSnap: map[string][]Term{}}
+	st := &State{x: x, regs: map[ssa.Value]Val{}, cells: map[*Cell]Val{}, heap: map[string]Term{}, defers: map[int][]deferred{}, fresh: map[string]bool{}, loopSnap: map[string][]Term{}, lockSnapNames: map[string][]string{}, loopFrame: map[string][]string{}}
 	fr := x.newFrame(fn, nil)
 	fr.top = true
 	x.topFrame = fr
@@ -102,10 +102,7 @@ func VerifyUnit(prog *Program, specs *Specs, fn *ssa.Function, ct *Contract, opt
 			x.abort("function with free variable %s cannot be a unit", fv.Name())
 		}
 		// type invariants of pointer parameters are assumed on entry
-		var pkg *types.Package
-		if fn.Pkg != nil {
-			pkg = fn.Pkg.Pkg
-		}
+		pkg := fnPkg(fn)
 		for i, p := range fn.Params {
 			tms, _ := x.typeInvTerms(st, pvals[i], p.Type(), pkg, true)
 			st.assumeAll(tms)
@@ -180,10 +177,7 @@ func (x *Exec) atExit(fr *Frame, st *State, results []Val, pvals []Val) {
 		}
 	}
 	// type invariants of pointer parameters (receiver) must hold again
-	var pkg *types.Package
-	if fn.Pkg != nil {
-		pkg = fn.Pkg.Pkg
-	}
+	pkg := fnPkg(fn)
 	for i, p := range fn.Params {
 		tms, cls := x.typeInvTerms(st, pvals[i], p.Type(), pkg)
 		for j, tm := range tms {
@@ -469,6 +463,65 @@ func (x *Exec) snapVariant(fr *Frame, st *State, li *loopInfo) {
 	st.loopSnap[li.key] = snap
 }
 
+func (x *Exec) frameInvTerm(st *State, name string) Term {
+	sort_ := x.heapSorts[name]
+	cur := st.hget(name, sort_)
+	init := st.initHeap(name, sort_)
+	alloc0 := st.initHeap("alloc", SArr(SRef, SBool))
+	return Term{fmt.Sprintf("(forall ((r!l Ref)) (! (=> (select %s (rootof r!l)) (= (select %s r!l) (select %s r!l))) :pattern ((select %s r!l))))", alloc0.S, cur.S, init.S, cur.S), SBool}
+}
+
+// modifiesMentions: the unit's modifies clause allows (part of) this array to change.
+func (x *Exec) modifiesMentions(name string) bool {
+	if x.contract == nil {
+		return true
+	}
+	for _, m := range x.contract.Modifies {
+		m = strings.TrimSpace(m)
+		if m == "*" {
+			return true
+		}
+		f := m
+		if i := strings.LastIndex(m, "."); i >= 0 {
+			f = m[i+1:]
+		}
+		f = strings.TrimSuffix(f, "[*]")
+		if strings.HasSuffix(name, "."+f) || strings.Contains(name, "."+f+".") || strings.HasSuffix(m, "[*]") {
+			return true
+		}
+	}
+	return false
+}
+
+func (x *Exec) checkLoopFrame(fr *Frame, st *State, li *loopInfo) {
+	for _, name := range st.loopFrame[li.key] {
+		o := x.newObl(fr.fn, "frame-loop", fmt.Sprintf("loop %d: %s", li.ordinal, name), x.safetyProps(), "")
+		st.check(o, x.frameInvTerm(st, name))
+	}
+}
+
+// checkLoopLocks: at a back edge the ghost lock state equals the one at loop entry.
+func (x *Exec) checkLoopLocks(fr *Frame, st *State, li *loopInfo) {
+	names := st.lockSnapNames[li.key]
+	snap := st.loopSnap[li.key+"#locks"]
+	seen := map[string]bool{}
+	for i, name := range names {
+		seen[name] = true
+		cur := st.hget(name, x.heapSorts[name])
+		o := x.newObl(fr.fn, "lock-balance-loop", fmt.Sprintf("loop %d: %s", li.ordinal, name), x.safetyProps(), "")
+		st.check(o, Eq(cur, snap[i]))
+	}
+	// lock arrays first touched inside the loop body: must be back to "not held"
+	for name := range x.heapSorts {
+		if strings.HasPrefix(name, "L.") && !seen[name] {
+			cur := st.hget(name, x.heapSorts[name])
+			init := st.initHeap(name, x.heapSorts[name])
+			o := x.newObl(fr.fn, "lock-balance-loop", fmt.Sprintf("loop %d: %s", li.ordinal, name), x.safetyProps(), "")
+			st.check(o, Eq(cur, init))
+		}
+	}
+}
+
 func (x *Exec) checkVariant(fr *Frame, st *State, li *loopInfo) {
 	cls := x.loopClauses(fr, li, "decreases")
 	if len(cls) == 0 {
@@ -520,6 +573,41 @@ func (x *Exec) havocLoop(fr *Frame, st *State, li *loopInfo) {
 		st.assumeLoaded(phi.Type(), v)
 	}
 	ws := x.loopWrites(fr, li)
+	if len(ws.freeVars) > 0 {
+		ws.all = true
+	}
+	var before map[string]Term
+	if x.contract != nil && x.contract.HasMod {
+		before = make(map[string]Term, len(st.heap))
+		for k, v := range st.heap {
+			before[k] = v
+		}
+	}
+	defer func() {
+		// auto-invariant: arrays the contract does not allow to change keep, for the objects that
+		// existed at function entry, the values they had at function entry (checked at back edges)
+		if before == nil {
+			return
+		}
+		var names []string
+		for name, t := range st.heap {
+			if b, ok := before[name]; ok && b.S == t.S {
+				continue
+			}
+			if strings.HasPrefix(name, "L.") || name == "alloc" || x.modifiesMentions(name) {
+				continue
+			}
+			if sort_, ok := x.heapSorts[name]; !ok || idxSort(sort_) != SRef {
+				continue
+			}
+			names = append(names, name)
+		}
+		sort.Strings(names)
+		for _, name := range names {
+			st.assume(x.frameInvTerm(st, name))
+		}
+		st.loopFrame[li.key] = names
+	}()
 	if ws.all {
 		st.havocAll(nil)
 	} else {
@@ -544,11 +632,26 @@ func (x *Exec) havocLoop(fr *Frame, st *State, li *loopInfo) {
 		st.assumeLoaded(pv.Cell.Typ, v)
 	}
 	if ws.locks {
-		x.abort("lock operation inside a loop is not modelled")
+		// lock operations inside the loop: every iteration must leave the lock state as it found it
+		var names []string
+		for name := range x.heapSorts {
+			if strings.HasPrefix(name, "L.") {
+				names = append(names, name)
+			}
+		}
+		sort.Strings(names)
+		var snap []Term
+		for _, name := range names {
+			snap = append(snap, st.hget(name, x.heapSorts[name]))
+		}
+		st.loopSnap[li.key+"#locknames"] = nil
+		st.lockSnapNames[li.key] = names
+		st.loopSnap[li.key+"#locks"] = snap
 	}
 }
 
 type writeSet struct {
+	freeVars map[*ssa.FreeVar]bool
 	all    bool
 	arrays map[string]bool
 	cells  map[*ssa.Alloc]bool
@@ -556,7 +659,7 @@ type writeSet struct {
 }
 
 func (x *Exec) loopWrites(fr *Frame, li *loopInfo) *writeSet {
-	ws := &writeSet{arrays: map[string]bool{}, cells: map[*ssa.Alloc]bool{}}
+	ws := &writeSet{arrays: map[string]bool{}, cells: map[*ssa.Alloc]bool{}, freeVars: map[*ssa.FreeVar]bool{}}
 	for b := range li.body {
 		x.blockWrites(b, ws, 0, map[*ssa.Function]bool{fr.fn: true})
 	}
@@ -586,8 +689,8 @@ func (x *Exec) blockWrites(b *ssa.BasicBlock, ws *writeSet, depth int, seen map[
 			case *ssa.Alloc:
 				ws.cells[a] = true
 			case *ssa.FreeVar:
-				// captured cell of the parent: handled by the parent frame's loop (closure inlined there)
-				ws.all = true
+				// captured cell of the enclosing function: resolved through the closure's bindings (callWrites)
+				ws.freeVars[a] = true
 			default:
 				ws.all = true
 			}
@@ -722,6 +825,16 @@ func (x *Exec) callWrites(c *ssa.CallCommon, ws *writeSet, depth int, seen map[*
 		for _, b := range fnc.Blocks {
 			x.blockWrites(b, ws, depth+1, seen)
 		}
+		for i, fv := range fnc.FreeVars {
+			if ws.freeVars[fv] {
+				if a, ok := v.Bindings[i].(*ssa.Alloc); ok {
+					ws.cells[a] = true
+				} else {
+					ws.all = true
+				}
+				delete(ws.freeVars, fv)
+			}
+		}
 	default:
 		ws.all = true
 	}
@@ -755,8 +868,8 @@ func (x *Exec) staticModArrays(fn *ssa.Function, m string, ws *writeSet) bool {
 			cur = p.Type()
 		}
 	}
-	if cur == nil && fn.Pkg != nil {
-		if tn, ok := fn.Pkg.Pkg.Scope().Lookup(parts[0]).(*types.TypeName); ok && len(parts) == 2 {
+	if cur == nil && fnPkg(fn) != nil {
+		if tn, ok := fnPkg(fn).Scope().Lookup(parts[0]).(*types.TypeName); ok && len(parts) == 2 {
 			ws.arrays["F."+typeName(tn.Type())+"."+parts[1]] = true
 			return true
 		}
@@ -765,7 +878,7 @@ func (x *Exec) staticModArrays(fn *ssa.Function, m string, ws *writeSet) bool {
 		return false
 	}
 	for i := 1; i < len(parts); i++ {
-		obj, index, _ := types.LookupFieldOrMethod(cur, true, fn.Pkg.Pkg, parts[i])
+		obj, index, _ := types.LookupFieldOrMethod(cur, true, fnPkg(fn), parts[i])
 		fv, ok := obj.(*types.Var)
 		if !ok {
 			return false
